@@ -76,7 +76,7 @@ pub fn generate(out: &mut Out, tier: &str, seed: u64) {
     let thorough = tier == "thorough";
     let ctx = Ctx::new();
     let mut rng = Rng::new(seed ^ 0xC02);
-    let n = if thorough { 80000 } else { 4000 };
+    let n = if thorough { 500000 } else { 4000 };
     for i in 0..n {
         let cfg = GenCfg { max_ops: if i % 4 == 0 { 40 } else { 16 }, removals: 6, invalid: 20, values: false };
         let ops = gen_history(&mut rng, &cfg);
